@@ -35,7 +35,7 @@ FAULT_OPS = ("alloc", "clock_tick", "clock_jump", "clock_freeze")
 # (probes "epoch_address_reused" / "ephemeral_id" only fire if the code under test calls id() on temporaries,
 #  which the repaired tree no longer does; they are kept for mutants and not required to be non-zero)
 PROBES = ["refinement_rounds_ge_2", "timeout_fired", "clock_went_backwards",
-          "symmetric_family", "same_hypergraph_object_reanalysed", "network_edited_between_analyses", "call_relying_on_signature_defaults", "analyser_object_reused", "depth_limited_call", "wl_checked", "twin_compared", "neighbour_compared", "flagged_partial_answer", "slow_clock_default_timeout"]
+          "symmetric_family", "more_than_1000_automorphisms", "same_hypergraph_object_reanalysed", "network_edited_between_analyses", "call_relying_on_signature_defaults", "analyser_object_reused", "depth_limited_call", "wl_checked", "twin_compared", "neighbour_compared", "flagged_partial_answer", "slow_clock_default_timeout"]
 REAL = ["synkit.CRN.Topo.wl_canon.WLCanonicalizer / wl_canonical (sound checks only: isomorphic to view, colour classes coarsen true orbits, estimate >= true count, twin histograms equal)",
         "synkit.CRN.Topo.canon.CRNCanonicalizer (_init_part/_sig/_refine/_label/_search/_canon, summary/graph/orbits)",
         "synkit.CRN.Topo.automorphism.CRNAutomorphism.summary / has_nontrivial_automorphism / detect_automorphisms",
@@ -76,6 +76,15 @@ def gen_net(rng, deep: bool = False) -> Net:
     species = [chr(ord("A") + i) for i in range(n_sp)]
     n_rx = rng.randint(3, 6) if deep else rng.randint(1, 5)
     style = rng.choice(["random", "random", "ring", "repeat", "reversible", "star"])
+    if rng.random() < 0.004:
+        # k identical reactions over the same species: more than 1000 (but fewer than 6000) self-maps in the bipartite view
+        if rng.random() < 0.5:
+            base = {"r": {"A": 1, "B": 1, "C": 1}, "p": {"D": 1, "E": 1}}   # 3! * 2! * 5! = 1440
+            k_ = 5
+        else:
+            base = {"r": {"A": 1, "B": 1}, "p": {"C": 1}}                      # 2! * 6! = 1440
+            k_ = 6
+        return [{"id": None, "rule": "r", "r": dict(base["r"]), "p": dict(base["p"])} for _ in range(k_)]
     net: Net = []
 
     def side(maxn: int) -> Dict[str, int]:
@@ -193,6 +202,21 @@ def generate(seed: int, tier: str = "quick") -> Dict[str, Any]:
     vary_flags = rng.random() < 0.5
     faulty = rng.random() < 0.8
     clocky = rng.random() < 0.5
+    big = len(net) >= 5 and all(rx["r"] == net[0]["r"] and rx["p"] == net[0]["p"] for rx in net) and len(net[0]["r"]) >= 2
+    if big:
+        # a >1000-automorphism family is expensive: two exact calls in the bipartite view are enough
+        k = 0
+
+        def s2() -> int:
+            nonlocal k
+            k += 1
+            return derive(seed, "op", k)
+        w = rng.choice(["net", "twin"])
+        return {"cfg": cfg, "ops": [
+            {"op": "canon", "s": s2(), "which": w, "timeout": None, "flags": [True, rng.random() < 0.5, False], "api": "summary",
+             "max_depth": None, "reuse": False, "bare": False},
+            {"op": "aut", "s": s2(), "which": w, "flags": [True, rng.random() < 0.5, False], "timeout": None, "max_count": 5000,
+             "api": rng.choice(["summary", "iter"]), "reuse": False, "bare": False}]}
     ops: List[Dict[str, Any]] = []
     k = 0
 
@@ -319,6 +343,26 @@ def _refinement_rounds(g: gr.G) -> int:
         rounds += 1
 
 
+def scramble(obj: Any, depth: int = 0) -> None:
+    """The caller edits what it got back (returned containers belong to the caller): clear dicts / lists / sets of
+    a result, recursively, but never the values stored inside graphs (attribute values may legitimately be shared)."""
+    if depth > 3:
+        return
+    if isinstance(obj, dict):
+        for v in list(obj.values()):
+            scramble(v, depth + 1)
+        obj.clear()
+    elif isinstance(obj, (list, set)):
+        for v in list(obj):
+            scramble(v, depth + 1)
+        obj.clear()
+    elif isinstance(obj, nx.Graph):
+        try:
+            obj.remove_nodes_from(list(obj.nodes))
+        except Exception:
+            pass
+
+
 def canon_sig(Gc: nx.DiGraph, bipartite: bool, include_stoich: bool) -> Any:
     g = view_ref(Gc, bipartite, include_stoich)
     return (sorted((n, g.key[n]) for n in g.nodes), sorted((u, v, repr(l)) for (u, v), l in g.arcs.items()))
@@ -397,6 +441,8 @@ def _run(case: Dict[str, Any], sim: Sim, world: World, clock: SimClock) -> None:
             truth_cache[which] = t
             if t["count"] > 2:
                 sim.probe("symmetric_family")
+            if 1000 < t["count"] <= 6000:
+                sim.probe("more_than_1000_automorphisms")
             if _refinement_rounds(g) >= 2:
                 sim.probe("refinement_rounds_ge_2")
         return t
@@ -599,6 +645,8 @@ def _run(case: Dict[str, Any], sim: Sim, world: World, clock: SimClock) -> None:
             sim.state(("canon", bip, sto, which, flagged, T["count"] if not T["capped"] else -1, Gv.number_of_nodes(), Gv.number_of_edges()))
             sim.event("canon", {"which": which, "api": op["api"], "flagged": flagged,
                                 "count": (s["automorphism_count"] if s else None), "sig": (canon_sig(s["canon_graph"], bip, sto) if (s and not flagged) else None)})
+            if s is not None:
+                scramble(s)
         else:  # aut
             tmo = op["timeout"]
             mc_arg = op["max_count"]            # None is documented for detect_automorphisms only ("a large default is used")
@@ -633,6 +681,7 @@ def _run(case: Dict[str, Any], sim: Sim, world: World, clock: SimClock) -> None:
                                         {"got": len(maps_), "true": T["count"], "max_count": mc, "timeout": it_tmo, "max_elapsed_seen": elapsed})
                 sim.state(("iter", bip, sto, len(maps_)))
                 sim.event("aut", {"which": which, "api": api, "n": len(maps_)})
+                scramble(maps_)
                 continue
             if api == "summary":
                 if tmo == "default":
@@ -697,6 +746,7 @@ def _run(case: Dict[str, Any], sim: Sim, world: World, clock: SimClock) -> None:
                                         {"count": cnt, "max_count": mc, "timeout": eff_tmo, "max_elapsed_seen": elapsed})
             sim.state(("aut", bip, sto, stopped, T["count"] if not T["capped"] else -1, api))
             sim.event("aut", {"which": which, "api": api, "stopped": stopped, "count": cnt})
+            scramble(res)
 
 
 # ---------------------------------------------------------------------------
